@@ -420,6 +420,7 @@ func (t *T0x0200ExtensionSBBase) parse(data []byte) {
 }
 
 func (vs *T0x0200ExtensionTable18) parse(value uint16) {
+	*vs = T0x0200ExtensionTable18{} // 复用同一个对象解析时 上一次置位的标志要清掉
 	vs.OriginalValue = value
 	data := fmt.Sprintf("%.16b", vs.OriginalValue)
 	if data[15] == '1' {
